@@ -2,6 +2,8 @@
 //!   vh run <PROP> <tier> <seed> <out.json> [extra...]
 //!   vh replay <replay.json> <out.json>
 mod c01;
+mod c03;
+mod c04;
 mod c09;
 mod gens;
 mod proto;
@@ -16,6 +18,11 @@ fn rule_and_assumptions(prop: &str) -> (&'static str, Vec<&'static str>) {
     match prop {
         "C01" => (c01::RULE_C01, vec!["ring::rand::SystemRandom and the OS clock work", "messages above 1 MiB are not driven"]),
         "C02" => (c01::RULE_C01, vec!["key pairs: official vector keys, harness-derived Ed25519/P-384 pairs (derived with the same curve crates the library uses; cross-checked against the independent reference in C08), RSA-2048 fixtures", "RSA keys other than 2048 bit are not driven"]),
+        "C03" => (c03::RULE, vec!["authenticity of the base tokens is established by the library itself (seal + self-check open); C01/C02/C08 cover that", "forbidden error variants = those that only arise after plaintext exists (Utf8Error, FromUtf8Error, JSON, claim errors); every other variant counts as an authentication/format rejection", "hook: keystream event inside CipherText::<V1|V3|V4,Local>::from (v2.local is a one-shot AEAD)"]),
+        "C04" => (c04::RULE_C04, vec!["a different ENCODING of the same key is not a different key; none of the driven alternatives is one", "forgery resistance of the primitives themselves is assumed"]),
+        "C05" => (c04::RULE_C05, vec!["an empty 4th segment for an explicitly empty footer is left to C08 (which is the property that forbids it)"]),
+        "C06" => (c04::RULE_C06, vec!["random assertions of >= 12 base64-alphabet characters: a chance occurrence in the token has probability < 2^-60"]),
+        "C07" => (c04::RULE_C07, vec!["forgery resistance of the primitives themselves is assumed"]),
         "C09" => (c09::RULE, vec!["plain panics are caught in-process (catch_unwind); aborts/stack overflows kill the harness and are detected by the parent, which re-runs in journal mode to obtain the witness", "inputs above 3 MiB are not driven"]),
         _ => ("", vec![]),
     }
@@ -25,6 +32,11 @@ fn run(prop: &str, tier: &str, seed: u64, extra: &[String]) -> Report {
     let _ = extra;
     match prop {
         "C01" | "C02" => c01::run(prop, tier, seed),
+        "C03" => c03::run(tier, seed),
+        "C04" => c04::run_c04(tier, seed),
+        "C05" => c04::run_c05(tier, seed),
+        "C06" => c04::run_c06(tier, seed),
+        "C07" => c04::run_c07(tier, seed),
         "C09" => c09::run(tier, seed),
         _ => {
             let mut r = Report::new();
@@ -39,6 +51,11 @@ fn replay(rec: &Value) -> (String, Report) {
     let case = rec.get("case").cloned().unwrap_or(Value::Null);
     let r = match cmd.as_str() {
         "C01" | "C02" => c01::replay(&cmd, &case),
+        "C03" => c03::replay(&case),
+        "C04" => c04::replay_c04(&case),
+        "C05" => c04::replay_c05(&case),
+        "C06" => c04::replay_c06(&case),
+        "C07" => c04::replay_c07(&case),
         "C09" => c09::replay(&case),
         _ => {
             let mut r = Report::new();
